@@ -168,3 +168,274 @@ fn kf_d2_simple_reserved() {
     let buf = c.into_inner();
     if x < 24 { assert!(ok && n == 1 && buf[0] == 0xe0 | x) } else { assert!(!ok) }
 }
+
+// ---- more instantiations of macro-generated / composite impls
+// @harness name=c01_refcell props=C01,C07 kind=complete
+rt!(c01_refcell, core::cell::RefCell<u8>, |v| core::cell::RefCell::new(kani::any()), |a, b| *a.borrow() == *b.borrow());
+// @harness name=c01_option_bool props=C01,C07 kind=complete
+rt!(c01_option_bool, Option<bool>, |v| kani::any(), |a, b| a == b);
+// @harness name=c01_atomic_u8 props=C01,C07 kind=complete
+rt!(c01_atomic_u8, core::sync::atomic::AtomicU8, |v| core::sync::atomic::AtomicU8::new(kani::any()),
+    |a, b| a.load(core::sync::atomic::Ordering::SeqCst) == b.load(core::sync::atomic::Ordering::SeqCst));
+// @harness name=c01_atomic_i32 props=C01,C07 kind=complete
+rt!(c01_atomic_i32, core::sync::atomic::AtomicI32, |v| core::sync::atomic::AtomicI32::new(kani::any()),
+    |a, b| a.load(core::sync::atomic::Ordering::SeqCst) == b.load(core::sync::atomic::Ordering::SeqCst));
+// @harness name=c01_atomic_u64 props=C01,C07 kind=complete
+rt!(c01_atomic_u64, core::sync::atomic::AtomicU64, |v| core::sync::atomic::AtomicU64::new(kani::any()),
+    |a, b| a.load(core::sync::atomic::Ordering::SeqCst) == b.load(core::sync::atomic::Ordering::SeqCst));
+// @harness name=c01_atomic_bool props=C01,C07 kind=complete
+rt!(c01_atomic_bool, core::sync::atomic::AtomicBool, |v| core::sync::atomic::AtomicBool::new(kani::any()),
+    |a, b| a.load(core::sync::atomic::Ordering::SeqCst) == b.load(core::sync::atomic::Ordering::SeqCst));
+// @harness name=c01_ipv4 props=C01,C07 kind=complete features=std
+#[cfg(feature = "std")]
+rt!(c01_ipv4, std::net::Ipv4Addr, |v| std::net::Ipv4Addr::from(kani::any::<[u8; 4]>()), |a, b| a == b);
+// @harness name=c01_ipaddr_v4 props=C01,C07 kind=complete features=std
+#[cfg(feature = "std")]
+rt!(c01_ipaddr_v4, std::net::IpAddr, |v| std::net::IpAddr::V4(std::net::Ipv4Addr::from(kani::any::<[u8; 4]>())), |a, b| a == b);
+// @harness name=c01_sockaddr_v4 props=C01,C07 kind=complete features=std tier=thorough
+#[cfg(feature = "std")]
+rt!(c01_sockaddr_v4, std::net::SocketAddrV4, |v| std::net::SocketAddrV4::new(std::net::Ipv4Addr::from(kani::any::<[u8; 4]>()), kani::any()), |a, b| a == b);
+// @harness name=c01_systemtime props=C01,C07 kind=complete features=std tier=thorough
+#[cfg(feature = "std")]
+rt!(c01_systemtime, std::time::SystemTime, |v| { let n: u32 = kani::any(); kani::assume(n < 1_000_000_000); let s: u32 = kani::any();
+      std::time::UNIX_EPOCH + core::time::Duration::new(s as u64, n) }, |a, b| a == b);
+
+// ---- encode_tuples! / decode_tuples!: one row per arity (1..=16); elements are one-byte integers so that position i of the
+// output is element i.  Encode side for every arity, decode side for arities 4, 8, 12, 16.
+
+// @harness name=c03_tuple_01 props=C03,C01,C07 kind=complete
+#[kani::proof]
+fn c03_tuple_01() {
+    let v: [u8; 1] = kani::any();
+    kani::assume(v[0] < 24);
+    let t: (u8, ) = (v[0], );
+    let (buf, n) = enc(&t);
+    assert!(n == 2 && buf[0] == 0x81);
+    assert!(buf[1] == v[0]);
+    assert!(t.cbor_len(&mut ()) == n);
+    kani::cover!(true);
+}
+// @harness name=c03_tuple_02 props=C03,C01,C07 kind=complete
+#[kani::proof]
+fn c03_tuple_02() {
+    let v: [u8; 2] = kani::any();
+    kani::assume(v[0] < 24 && v[1] < 24);
+    let t: (u8, u8, ) = (v[0], v[1], );
+    let (buf, n) = enc(&t);
+    assert!(n == 3 && buf[0] == 0x82);
+    assert!(buf[1] == v[0] && buf[2] == v[1]);
+    assert!(t.cbor_len(&mut ()) == n);
+    kani::cover!(true);
+}
+// @harness name=c03_tuple_03 props=C03,C01,C07 kind=complete
+#[kani::proof]
+fn c03_tuple_03() {
+    let v: [u8; 3] = kani::any();
+    kani::assume(v[0] < 24 && v[1] < 24 && v[2] < 24);
+    let t: (u8, u8, u8, ) = (v[0], v[1], v[2], );
+    let (buf, n) = enc(&t);
+    assert!(n == 4 && buf[0] == 0x83);
+    assert!(buf[1] == v[0] && buf[2] == v[1] && buf[3] == v[2]);
+    assert!(t.cbor_len(&mut ()) == n);
+    kani::cover!(true);
+}
+// @harness name=c03_tuple_04 props=C03,C01,C07 kind=complete
+#[kani::proof]
+fn c03_tuple_04() {
+    let v: [u8; 4] = kani::any();
+    kani::assume(v[0] < 24 && v[1] < 24 && v[2] < 24 && v[3] < 24);
+    let t: (u8, u8, u8, u8, ) = (v[0], v[1], v[2], v[3], );
+    let (buf, n) = enc(&t);
+    assert!(n == 5 && buf[0] == 0x84);
+    assert!(buf[1] == v[0] && buf[2] == v[1] && buf[3] == v[2] && buf[4] == v[3]);
+    assert!(t.cbor_len(&mut ()) == n);
+    kani::cover!(true);
+}
+// @harness name=c03_tuple_05 props=C03,C01,C07 kind=complete
+#[kani::proof]
+fn c03_tuple_05() {
+    let v: [u8; 5] = kani::any();
+    kani::assume(v[0] < 24 && v[1] < 24 && v[2] < 24 && v[3] < 24 && v[4] < 24);
+    let t: (u8, u8, u8, u8, u8, ) = (v[0], v[1], v[2], v[3], v[4], );
+    let (buf, n) = enc(&t);
+    assert!(n == 6 && buf[0] == 0x85);
+    assert!(buf[1] == v[0] && buf[2] == v[1] && buf[3] == v[2] && buf[4] == v[3] && buf[5] == v[4]);
+    assert!(t.cbor_len(&mut ()) == n);
+    kani::cover!(true);
+}
+// @harness name=c03_tuple_06 props=C03,C01,C07 kind=complete
+#[kani::proof]
+fn c03_tuple_06() {
+    let v: [u8; 6] = kani::any();
+    kani::assume(v[0] < 24 && v[1] < 24 && v[2] < 24 && v[3] < 24 && v[4] < 24 && v[5] < 24);
+    let t: (u8, u8, u8, u8, u8, u8, ) = (v[0], v[1], v[2], v[3], v[4], v[5], );
+    let (buf, n) = enc(&t);
+    assert!(n == 7 && buf[0] == 0x86);
+    assert!(buf[1] == v[0] && buf[2] == v[1] && buf[3] == v[2] && buf[4] == v[3] && buf[5] == v[4] && buf[6] == v[5]);
+    assert!(t.cbor_len(&mut ()) == n);
+    kani::cover!(true);
+}
+// @harness name=c03_tuple_07 props=C03,C01,C07 kind=complete tier=thorough
+#[kani::proof]
+fn c03_tuple_07() {
+    let v: [u8; 7] = kani::any();
+    kani::assume(v[0] < 24 && v[1] < 24 && v[2] < 24 && v[3] < 24 && v[4] < 24 && v[5] < 24 && v[6] < 24);
+    let t: (u8, u8, u8, u8, u8, u8, u8, ) = (v[0], v[1], v[2], v[3], v[4], v[5], v[6], );
+    let (buf, n) = enc(&t);
+    assert!(n == 8 && buf[0] == 0x87);
+    assert!(buf[1] == v[0] && buf[2] == v[1] && buf[3] == v[2] && buf[4] == v[3] && buf[5] == v[4] && buf[6] == v[5] && buf[7] == v[6]);
+    assert!(t.cbor_len(&mut ()) == n);
+    kani::cover!(true);
+}
+// @harness name=c03_tuple_08 props=C03,C01,C07 kind=complete tier=thorough
+#[kani::proof]
+fn c03_tuple_08() {
+    let v: [u8; 8] = kani::any();
+    kani::assume(v[0] < 24 && v[1] < 24 && v[2] < 24 && v[3] < 24 && v[4] < 24 && v[5] < 24 && v[6] < 24 && v[7] < 24);
+    let t: (u8, u8, u8, u8, u8, u8, u8, u8, ) = (v[0], v[1], v[2], v[3], v[4], v[5], v[6], v[7], );
+    let (buf, n) = enc(&t);
+    assert!(n == 9 && buf[0] == 0x88);
+    assert!(buf[1] == v[0] && buf[2] == v[1] && buf[3] == v[2] && buf[4] == v[3] && buf[5] == v[4] && buf[6] == v[5] && buf[7] == v[6] && buf[8] == v[7]);
+    assert!(t.cbor_len(&mut ()) == n);
+    kani::cover!(true);
+}
+// @harness name=c03_tuple_09 props=C03,C01,C07 kind=complete tier=thorough
+#[kani::proof]
+fn c03_tuple_09() {
+    let v: [u8; 9] = kani::any();
+    kani::assume(v[0] < 24 && v[1] < 24 && v[2] < 24 && v[3] < 24 && v[4] < 24 && v[5] < 24 && v[6] < 24 && v[7] < 24 && v[8] < 24);
+    let t: (u8, u8, u8, u8, u8, u8, u8, u8, u8, ) = (v[0], v[1], v[2], v[3], v[4], v[5], v[6], v[7], v[8], );
+    let (buf, n) = enc(&t);
+    assert!(n == 10 && buf[0] == 0x89);
+    assert!(buf[1] == v[0] && buf[2] == v[1] && buf[3] == v[2] && buf[4] == v[3] && buf[5] == v[4] && buf[6] == v[5] && buf[7] == v[6] && buf[8] == v[7] && buf[9] == v[8]);
+    assert!(t.cbor_len(&mut ()) == n);
+    kani::cover!(true);
+}
+// @harness name=c03_tuple_10 props=C03,C01,C07 kind=complete tier=thorough
+#[kani::proof]
+fn c03_tuple_10() {
+    let v: [u8; 10] = kani::any();
+    kani::assume(v[0] < 24 && v[1] < 24 && v[2] < 24 && v[3] < 24 && v[4] < 24 && v[5] < 24 && v[6] < 24 && v[7] < 24 && v[8] < 24 && v[9] < 24);
+    let t: (u8, u8, u8, u8, u8, u8, u8, u8, u8, u8, ) = (v[0], v[1], v[2], v[3], v[4], v[5], v[6], v[7], v[8], v[9], );
+    let (buf, n) = enc(&t);
+    assert!(n == 11 && buf[0] == 0x8a);
+    assert!(buf[1] == v[0] && buf[2] == v[1] && buf[3] == v[2] && buf[4] == v[3] && buf[5] == v[4] && buf[6] == v[5] && buf[7] == v[6] && buf[8] == v[7] && buf[9] == v[8] && buf[10] == v[9]);
+    assert!(t.cbor_len(&mut ()) == n);
+    kani::cover!(true);
+}
+// @harness name=c03_tuple_11 props=C03,C01,C07 kind=complete tier=thorough
+#[kani::proof]
+fn c03_tuple_11() {
+    let v: [u8; 11] = kani::any();
+    kani::assume(v[0] < 24 && v[1] < 24 && v[2] < 24 && v[3] < 24 && v[4] < 24 && v[5] < 24 && v[6] < 24 && v[7] < 24 && v[8] < 24 && v[9] < 24 && v[10] < 24);
+    let t: (u8, u8, u8, u8, u8, u8, u8, u8, u8, u8, u8, ) = (v[0], v[1], v[2], v[3], v[4], v[5], v[6], v[7], v[8], v[9], v[10], );
+    let (buf, n) = enc(&t);
+    assert!(n == 12 && buf[0] == 0x8b);
+    assert!(buf[1] == v[0] && buf[2] == v[1] && buf[3] == v[2] && buf[4] == v[3] && buf[5] == v[4] && buf[6] == v[5] && buf[7] == v[6] && buf[8] == v[7] && buf[9] == v[8] && buf[10] == v[9] && buf[11] == v[10]);
+    assert!(t.cbor_len(&mut ()) == n);
+    kani::cover!(true);
+}
+// @harness name=c03_tuple_12 props=C03,C01,C07 kind=complete tier=thorough
+#[kani::proof]
+fn c03_tuple_12() {
+    let v: [u8; 12] = kani::any();
+    kani::assume(v[0] < 24 && v[1] < 24 && v[2] < 24 && v[3] < 24 && v[4] < 24 && v[5] < 24 && v[6] < 24 && v[7] < 24 && v[8] < 24 && v[9] < 24 && v[10] < 24 && v[11] < 24);
+    let t: (u8, u8, u8, u8, u8, u8, u8, u8, u8, u8, u8, u8, ) = (v[0], v[1], v[2], v[3], v[4], v[5], v[6], v[7], v[8], v[9], v[10], v[11], );
+    let (buf, n) = enc(&t);
+    assert!(n == 13 && buf[0] == 0x8c);
+    assert!(buf[1] == v[0] && buf[2] == v[1] && buf[3] == v[2] && buf[4] == v[3] && buf[5] == v[4] && buf[6] == v[5] && buf[7] == v[6] && buf[8] == v[7] && buf[9] == v[8] && buf[10] == v[9] && buf[11] == v[10] && buf[12] == v[11]);
+    assert!(t.cbor_len(&mut ()) == n);
+    kani::cover!(true);
+}
+// @harness name=c03_tuple_13 props=C03,C01,C07 kind=complete tier=thorough
+#[kani::proof]
+fn c03_tuple_13() {
+    let v: [u8; 13] = kani::any();
+    kani::assume(v[0] < 24 && v[1] < 24 && v[2] < 24 && v[3] < 24 && v[4] < 24 && v[5] < 24 && v[6] < 24 && v[7] < 24 && v[8] < 24 && v[9] < 24 && v[10] < 24 && v[11] < 24 && v[12] < 24);
+    let t: (u8, u8, u8, u8, u8, u8, u8, u8, u8, u8, u8, u8, u8, ) = (v[0], v[1], v[2], v[3], v[4], v[5], v[6], v[7], v[8], v[9], v[10], v[11], v[12], );
+    let (buf, n) = enc(&t);
+    assert!(n == 14 && buf[0] == 0x8d);
+    assert!(buf[1] == v[0] && buf[2] == v[1] && buf[3] == v[2] && buf[4] == v[3] && buf[5] == v[4] && buf[6] == v[5] && buf[7] == v[6] && buf[8] == v[7] && buf[9] == v[8] && buf[10] == v[9] && buf[11] == v[10] && buf[12] == v[11] && buf[13] == v[12]);
+    assert!(t.cbor_len(&mut ()) == n);
+    kani::cover!(true);
+}
+// @harness name=c03_tuple_14 props=C03,C01,C07 kind=complete tier=thorough
+#[kani::proof]
+fn c03_tuple_14() {
+    let v: [u8; 14] = kani::any();
+    kani::assume(v[0] < 24 && v[1] < 24 && v[2] < 24 && v[3] < 24 && v[4] < 24 && v[5] < 24 && v[6] < 24 && v[7] < 24 && v[8] < 24 && v[9] < 24 && v[10] < 24 && v[11] < 24 && v[12] < 24 && v[13] < 24);
+    let t: (u8, u8, u8, u8, u8, u8, u8, u8, u8, u8, u8, u8, u8, u8, ) = (v[0], v[1], v[2], v[3], v[4], v[5], v[6], v[7], v[8], v[9], v[10], v[11], v[12], v[13], );
+    let (buf, n) = enc(&t);
+    assert!(n == 15 && buf[0] == 0x8e);
+    assert!(buf[1] == v[0] && buf[2] == v[1] && buf[3] == v[2] && buf[4] == v[3] && buf[5] == v[4] && buf[6] == v[5] && buf[7] == v[6] && buf[8] == v[7] && buf[9] == v[8] && buf[10] == v[9] && buf[11] == v[10] && buf[12] == v[11] && buf[13] == v[12] && buf[14] == v[13]);
+    assert!(t.cbor_len(&mut ()) == n);
+    kani::cover!(true);
+}
+// @harness name=c03_tuple_15 props=C03,C01,C07 kind=complete tier=thorough
+#[kani::proof]
+fn c03_tuple_15() {
+    let v: [u8; 15] = kani::any();
+    kani::assume(v[0] < 24 && v[1] < 24 && v[2] < 24 && v[3] < 24 && v[4] < 24 && v[5] < 24 && v[6] < 24 && v[7] < 24 && v[8] < 24 && v[9] < 24 && v[10] < 24 && v[11] < 24 && v[12] < 24 && v[13] < 24 && v[14] < 24);
+    let t: (u8, u8, u8, u8, u8, u8, u8, u8, u8, u8, u8, u8, u8, u8, u8, ) = (v[0], v[1], v[2], v[3], v[4], v[5], v[6], v[7], v[8], v[9], v[10], v[11], v[12], v[13], v[14], );
+    let (buf, n) = enc(&t);
+    assert!(n == 16 && buf[0] == 0x8f);
+    assert!(buf[1] == v[0] && buf[2] == v[1] && buf[3] == v[2] && buf[4] == v[3] && buf[5] == v[4] && buf[6] == v[5] && buf[7] == v[6] && buf[8] == v[7] && buf[9] == v[8] && buf[10] == v[9] && buf[11] == v[10] && buf[12] == v[11] && buf[13] == v[12] && buf[14] == v[13] && buf[15] == v[14]);
+    assert!(t.cbor_len(&mut ()) == n);
+    kani::cover!(true);
+}
+// @harness name=c03_tuple_16 props=C03,C01,C07 kind=complete tier=thorough
+#[kani::proof]
+fn c03_tuple_16() {
+    let v: [u8; 16] = kani::any();
+    kani::assume(v[0] < 24 && v[1] < 24 && v[2] < 24 && v[3] < 24 && v[4] < 24 && v[5] < 24 && v[6] < 24 && v[7] < 24 && v[8] < 24 && v[9] < 24 && v[10] < 24 && v[11] < 24 && v[12] < 24 && v[13] < 24 && v[14] < 24 && v[15] < 24);
+    let t: (u8, u8, u8, u8, u8, u8, u8, u8, u8, u8, u8, u8, u8, u8, u8, u8, ) = (v[0], v[1], v[2], v[3], v[4], v[5], v[6], v[7], v[8], v[9], v[10], v[11], v[12], v[13], v[14], v[15], );
+    let (buf, n) = enc(&t);
+    assert!(n == 17 && buf[0] == 0x90);
+    assert!(buf[1] == v[0] && buf[2] == v[1] && buf[3] == v[2] && buf[4] == v[3] && buf[5] == v[4] && buf[6] == v[5] && buf[7] == v[6] && buf[8] == v[7] && buf[9] == v[8] && buf[10] == v[9] && buf[11] == v[10] && buf[12] == v[11] && buf[13] == v[12] && buf[14] == v[13] && buf[15] == v[14] && buf[16] == v[15]);
+    assert!(t.cbor_len(&mut ()) == n);
+    kani::cover!(true);
+}
+// @harness name=c01_tuple_dec_04 props=C01 kind=complete
+#[kani::proof]
+fn c01_tuple_dec_04() {
+    let v: [u8; 4] = kani::any();
+    kani::assume(v[0] < 24 && v[1] < 24 && v[2] < 24 && v[3] < 24);
+    let buf = [0x84, v[0], v[1], v[2], v[3], kani::any::<u8>()];
+    let mut d = Decoder::new(&buf);
+    let r: Result<(u8, u8, u8, u8, ), _> = Decode::decode(&mut d, &mut ());
+    match r { Ok(t) => { assert!(t.0 == v[0] && t.1 == v[1] && t.2 == v[2] && t.3 == v[3]); assert!(d.position() == 5) } Err(_) => assert!(false) }
+    kani::cover!(true);
+}
+// @harness name=c01_tuple_dec_08 props=C01 kind=complete tier=thorough
+#[kani::proof]
+fn c01_tuple_dec_08() {
+    let v: [u8; 8] = kani::any();
+    kani::assume(v[0] < 24 && v[1] < 24 && v[2] < 24 && v[3] < 24 && v[4] < 24 && v[5] < 24 && v[6] < 24 && v[7] < 24);
+    let buf = [0x88, v[0], v[1], v[2], v[3], v[4], v[5], v[6], v[7], kani::any::<u8>()];
+    let mut d = Decoder::new(&buf);
+    let r: Result<(u8, u8, u8, u8, u8, u8, u8, u8, ), _> = Decode::decode(&mut d, &mut ());
+    match r { Ok(t) => { assert!(t.0 == v[0] && t.1 == v[1] && t.2 == v[2] && t.3 == v[3] && t.4 == v[4] && t.5 == v[5] && t.6 == v[6] && t.7 == v[7]); assert!(d.position() == 9) } Err(_) => assert!(false) }
+    kani::cover!(true);
+}
+// @harness name=c01_tuple_dec_12 props=C01 kind=complete tier=thorough
+#[kani::proof]
+fn c01_tuple_dec_12() {
+    let v: [u8; 12] = kani::any();
+    kani::assume(v[0] < 24 && v[1] < 24 && v[2] < 24 && v[3] < 24 && v[4] < 24 && v[5] < 24 && v[6] < 24 && v[7] < 24 && v[8] < 24 && v[9] < 24 && v[10] < 24 && v[11] < 24);
+    let buf = [0x8c, v[0], v[1], v[2], v[3], v[4], v[5], v[6], v[7], v[8], v[9], v[10], v[11], kani::any::<u8>()];
+    let mut d = Decoder::new(&buf);
+    let r: Result<(u8, u8, u8, u8, u8, u8, u8, u8, u8, u8, u8, u8, ), _> = Decode::decode(&mut d, &mut ());
+    match r { Ok(t) => { assert!(t.0 == v[0] && t.1 == v[1] && t.2 == v[2] && t.3 == v[3] && t.4 == v[4] && t.5 == v[5] && t.6 == v[6] && t.7 == v[7] && t.8 == v[8] && t.9 == v[9] && t.10 == v[10] && t.11 == v[11]); assert!(d.position() == 13) } Err(_) => assert!(false) }
+    kani::cover!(true);
+}
+// @harness name=c01_tuple_dec_16 props=C01 kind=complete tier=thorough
+#[kani::proof]
+fn c01_tuple_dec_16() {
+    let v: [u8; 16] = kani::any();
+    kani::assume(v[0] < 24 && v[1] < 24 && v[2] < 24 && v[3] < 24 && v[4] < 24 && v[5] < 24 && v[6] < 24 && v[7] < 24 && v[8] < 24 && v[9] < 24 && v[10] < 24 && v[11] < 24 && v[12] < 24 && v[13] < 24 && v[14] < 24 && v[15] < 24);
+    let buf = [0x90, v[0], v[1], v[2], v[3], v[4], v[5], v[6], v[7], v[8], v[9], v[10], v[11], v[12], v[13], v[14], v[15], kani::any::<u8>()];
+    let mut d = Decoder::new(&buf);
+    let r: Result<(u8, u8, u8, u8, u8, u8, u8, u8, u8, u8, u8, u8, u8, u8, u8, u8, ), _> = Decode::decode(&mut d, &mut ());
+    match r { Ok(t) => { assert!(t.0 == v[0] && t.1 == v[1] && t.2 == v[2] && t.3 == v[3] && t.4 == v[4] && t.5 == v[5] && t.6 == v[6] && t.7 == v[7] && t.8 == v[8] && t.9 == v[9] && t.10 == v[10] && t.11 == v[11] && t.12 == v[12] && t.13 == v[13] && t.14 == v[14] && t.15 == v[15]); assert!(d.position() == 17) } Err(_) => assert!(false) }
+    kani::cover!(true);
+}
